@@ -59,6 +59,18 @@ CHECKS = {
    technique="TLA+ model of Dial/Connect/handshake (TLC over revision pairs x server behaviours, with pinned-code variants for non-vacuity) + real ch.Dial runs against scripted server behaviours with real (short) time-outs, validated by TLC with the Messages.tla tables (trace validation)",
    text="Client x server revision pairs over the representatives of every feature interval (quick: diagonal band + sample, thorough: all pairs) x {hello, late hello, exception, other packet, garbage, cut, truncated hello, stall} x credential strings: the hello bytes, the addendum iff min(client, server) has it, the reported server identity, the error carrying the exception, no usable client and a closed dialed connection on failure; a late hello within the handshake time-out must be accepted. Successful handshakes are followed by a query parsed at the negotiated revision.",
    note="Trusted: TLC; real timers with margins (read 40 ms, handshake 600 ms, late hello 110 ms); the harness Dialer makes Close of the dialed connection observable."),
+ "C18": dict(engine="Types", category="model_checking", design_ref="DESIGN.md §5 C18",
+   technique="TLA+ specification of result binding (Types!BindStep, a state machine over the targets' names and held data; TLC exhaustive over small target lists and block sequences) + real proto.Block.DecodeBlock into real caller columns for random (targets, block sequence) cases, each block validated by TLC (trace validation)",
+   text="TLC checks OwnPosition, OnlyMatching, NameKept and RefusedBindsNoLater on the binding state machine; on the real decoder 24 000 (quick) / 200 000 (thorough) cases - equal, blank names, permuted, renamed, extra / missing targets, a type swapped for every other kind, no targets, zero-row header blocks, later blocks with a changed schema, inferable enum / DateTime64 targets - are validated block by block: accepted iff the specification binds it, names as specified, every target holds its own column's data, its previous contents or nothing.",
+   note="Trusted: TLC; the harness identifies what a target holds by re-encoding it and comparing with the block's columns; the error text is not inspected."),
+ "C19": dict(engine="Types", category="model_checking", design_ref="DESIGN.md §5 C19",
+   technique="TLA+ definition of type compatibility on type ASTs (Types!Compatible; reflexivity, symmetry and the documented equivalences checked by TLC as ASSUMEs over a universe of ASTs) + ColumnType.Conflicts on ordered pairs of rendered types and ColAuto.Infer on well-formed and malformed strings, each answer validated by TLC against the relation (trace validation)",
+   text="~330 types (every base family with parameterisations under Array / Nullable / LowCardinality / Map / Tuple): Conflicts in both orders for the diagonal plus 60 000 sampled ordered pairs (quick) / all ~110 000 ordered pairs (thorough), in both comma spacings, must equal the complement of Compatible; Infer on every type in both spacings must give an error or a non-conflicting column that decodes and re-encodes a block of that type; every token sequence up to length 4 (quick, ~2*10^5 strings) / 5 (thorough, ~4*10^6) plus deep nesting and byte noise must return without panic.",
+   note="Trusted: TLC; the harness' rendering of ASTs to type names; malformed strings are checked for totality only."),
+ "C20": dict(engine="Calendar", category="model_checking", design_ref="DESIGN.md §5 C20",
+   technique="TLA+ definition of the proleptic Gregorian calendar, instants, civil times in fixed-offset zones, tick arithmetic and interval addition (lemmas checked by TLC over every day 1900..2299) + every conversion call of the library recorded as one trace line and judged by TLC against it (trace validation)",
+   text="TLC proves the calendar lemmas (day number <-> date inverse for all 146 097 days, consecutive days, instants <-> civil times in every zone, quarter = 3 months); on the library: ToDate/Date.Time for all 65 536 days and ToDate32/Date32.Time for all days 1900-01-01..2299-12-31 with a time of day and a zone -12h..+14h each (thorough: 8 variants per day), DateTime over boundary + 160 000 random seconds, DateTime64 at each precision 0..9 over range ends, epoch, 64-bit nanosecond ends and 14 000 random instants with boundary fractions, raw DateTime64 values to times, the four time columns with a location, Interval.Add for every scale, wide-integer constructors / column encodings and IPv4/IPv6 conversions (~850 000 lines quick, ~7 million thorough).",
+   note="Trusted: TLC; Go's time package for building inputs from civil fields and reading the fields of results (recomputed independently by the specification); the harness' 64-bit floor division that splits values into [days, second, fraction]. DateTime's 2^32 seconds and IPv4's 2^32 values are sampled, not enumerated. Known finding F-17 (a quarter is added as four months) is listed in known_findings.txt."),
  "C14": dict(engine="Writer", category="model_checking", design_ref="DESIGN.md §5 C14",
    technique="TLA+ model of the vectored writer with explicit backing arrays (TLC exhaustive) + every bounded operation sequence executed on the real proto.Writer and validated by TLC (trace validation)",
    text="Exhaustive at the stated sequence length over a 12-operation alphabet, plus random long sequences; each Flush's delivered bytes are compared by TLC with the specification's pending contents.",
@@ -106,6 +118,10 @@ def main():
              "kind_free_text": "TLA+ field tables of the protocol messages over Features.tla (independent revision thresholds); MC_Messages, Trace_Messages"},
             {"name": "Handshake", "path": "spec/Handshake.tla", "serves_properties": ["C13"],
              "kind_free_text": "TLA+ model of Dial / handshake with abstract time; MC_Handshake_*.cfg; Trace_Session (shared with C02)"},
+            {"name": "Types", "path": "spec/Types.tla", "serves_properties": ["C18", "C19"],
+             "kind_free_text": "TLA+ type ASTs, the compatibility relation and result binding as a state machine; MC_Types (lemmas + binding model), Trace_Types"},
+            {"name": "Calendar", "path": "spec/Calendar.tla", "serves_properties": ["C20"],
+             "kind_free_text": "TLA+ calendar, instants, ticks, intervals, byte-string widening; MC_Calendar (lemmas), Trace_Calendar"},
             {"name": "Frames", "path": "spec/Frames.tla", "serves_properties": ["C05"],
              "kind_free_text": "TLA+ model of compress.Reader over abstract frame streams with alteration classes; MC_Frames*.cfg, Trace_Frames"},
             {"name": "Pool", "path": "spec/Pool.tla", "serves_properties": ["C11", "C12"],
